@@ -247,6 +247,21 @@ static std::string defaults_diff(const decay0_generator & g)
   if (g.has_decay_version() != fresh.has_decay_version()) d << "has_decay_version differs from a new instance; ";
   if (g.is_debug() != fresh.is_debug()) d << "is_debug; ";
   if (!(g.get_to_all_events() == fresh.get_to_all_events())) d << "get_to_all_events=" << g.get_to_all_events() << "; ";
+  // the working parameters are reachable through a public getter as well
+  const bxdecay0::bbpars & a = g.get_bb_params();
+  const bxdecay0::bbpars & b = fresh.get_bb_params();
+  auto eqd = [](double x, double y) { return (std::isnan(x) && std::isnan(y)) || x == y; };
+#define CMPF(f) if (!eqd(a.f, b.f)) d << "get_bb_params()." #f "=" << a.f << " (new instance " << b.f << "); ";
+  CMPF(Qbb) CMPF(Edlevel) CMPF(EK) CMPF(Zdbb) CMPF(Adbb) CMPF(spmax) CMPF(toallevents) CMPF(ebb1) CMPF(ebb2) CMPF(e0)
+#undef CMPF
+#define CMPI(f) if (a.f != b.f) d << "get_bb_params()." #f "=" << a.f << " (new instance " << b.f << "); ";
+  CMPI(modebb) CMPI(levelE) CMPI(itrans02) CMPI(istartbb) CMPI(chdspin)
+#undef CMPI
+  for (unsigned k = 0; k < bxdecay0::bbpars::SPSIZE; k++)
+    if (!eqd(a.spthe1[k], b.spthe1[k])) {
+      d << "get_bb_params().spthe1[" << k << "]; ";
+      break;
+    }
   return d.str();
 }
 
@@ -391,6 +406,55 @@ int main(int argc, char ** argv)
           c.name = before.iso;
           std::string w = check_c04(c, o.ev, st);
           if (!w.empty()) V("c04", "invalid event: " + w);
+        }
+      }
+      // auxiliary entry points, applied as leaves after this transition (their successor states are states of the core
+      // alphabet: by-label = set_mode, so nothing is lost by not extending them): the by-label mode setter with a valid
+      // and an unknown label, and set_decay_version; each must refuse on an initialised generator and leave no trace,
+      // and behave like its core twin otherwise; a version set before must be gone after reset
+      static std::set<std::string> aux_done; // once per distinct (reference state, refusal mark): the leaves depend on nothing else
+      if (!o.threw && aux_done.insert(m.key() + "|" + n.tag).second) {
+        struct Aux { const char * name; int kind; };
+        static const Aux AUX[] = {{"set_mode_by_label(valid)", 0}, {"set_mode_by_label(bogus)", 1}, {"set_version(x)", 2}};
+        for (const Aux & ax : AUX) {
+          Impl J;
+          int sh = 0;
+          for (int h : n.hist) { apply_impl(J, ops[h], sh); if (ops[h].kind == 8) sh++; }
+          apply_impl(J, op, sh);
+          M m2 = m;
+          bool thr = false;
+          std::string what;
+          try {
+            if (ax.kind == 0) J.g->set_decay_dbd_mode_by_label(bxdecay0::dbd_mode_label(bxdecay0::DBDMODE_1));
+            else if (ax.kind == 1) J.g->set_decay_dbd_mode_by_label("no-such-mode");
+            else J.g->set_decay_version("x");
+          } catch (std::exception & e) { thr = true; what = e.what(); }
+          transitions++;
+          outcomes.insert(std::string(ax.name) + (thr ? ":throws" : ":ok"));
+          bool expect = m.init;
+          if (!expect) { if (ax.kind == 0) m2.mode = 1; else if (ax.kind == 1) m2.mode = 0; }
+          std::string hx = h2 + " ; " + ax.name;
+          auto VA = [&](const std::string & cls, const std::string & text) {
+            std::string k = std::string(ax.name) + "@" + m.key() + ":" + cls;
+            if (!viol.count(k) && viol.size() < 400) viol[k] = "history [" + hx + "]: " + text;
+          };
+          if (thr != expect) { VA(expect ? "no-exception" : "exception", std::string("reference machine says ") + (expect ? "throws" : "succeeds") + ", implementation " + (thr ? "throws: " + what : "succeeds")); }
+          std::string gd2 = getters_diff(*J.g, thr ? m : m2);
+          if (!gd2.empty()) VA("getters", "getters differ from the reference machine: " + gd2);
+          if (ax.kind == 2 && J.g->has_decay_version() != (!expect && !thr ? true : false) && !m.init) VA("getters", "has_decay_version after set_decay_version");
+          if (m.init && !thr) {
+            // the refused-but-accepted change must at least not alter the events: shot vs. fresh instance
+            Impl F;
+            if (fresh_like(m, F)) {
+              Ev a = shoot_probe(*J.g, 777), b = shoot_probe(*F.g, 777);
+              if (!same_ev(a, b)) VA("probe", "shot after the call differs from the shot of a fresh instance configured like the initialised state");
+            }
+          }
+          if (ax.kind == 2 && !m.init) {
+            J.g->reset();
+            std::string dd = defaults_diff(*J.g);
+            if (!dd.empty()) VA("defaults", "after set_version ; reset: " + dd);
+          }
         }
       }
       if (samples.size() < 4 && n.hist.size() == 3 && (op.kind == 7 || op.kind == 8) && !o.threw) samples.push_back(h2 + " => " + m.key());
